@@ -1158,7 +1158,16 @@ func (w *worker) runCombine(ctx context.Context, task *Task, taskStats *stats.Ma
 		w.mu.Lock()
 		w.combinerStates[combineKey]--
 		w.mu.Unlock()
-		if e := recover(); e != nil {
+		e := recover()
+		if (e != nil || err != nil) && task.CombineKey == "" {
+			// The combiner is private to this task and holds the part of
+			// the task's input that was combined before the failure: drop
+			// it, so that a later attempt of the task on this worker starts
+			// from an empty combiner instead of combining its input into
+			// the leftovers of this attempt.
+			w.dropCombiner(combineKey)
+		}
+		if e != nil {
 			// The user's combiner panicked: do not commit the partially
 			// combined buffer; (*worker).Run reports the panic.
 			panic(e)
@@ -1242,6 +1251,23 @@ func (w *worker) runCombine(ctx context.Context, task *Task, taskStats *stats.Ma
 		}
 	}
 	return nil
+}
+
+// dropCombiner discards the idle combiner with the provided key and
+// forgets it, so that the next runCombine with this key creates a new one.
+func (w *worker) dropCombiner(key TaskName) {
+	w.mu.Lock()
+	defer w.mu.Unlock()
+	if w.combinerStates[key] != combinerIdle {
+		return
+	}
+	for _, c := range w.combiners[key] {
+		if err := (<-c).Discard(); err != nil {
+			log.Error.Printf("error discarding combiner: %v", err)
+		}
+	}
+	w.combiners[key] = nil
+	w.combinerStates[key] = combinerNone
 }
 
 // combineAndRelease combines f into combiner and hands the combiner back
